@@ -170,7 +170,28 @@ def setup_pair(s, rng, hop=False):
     return f1, f2
 
 
+def respell(rng, text, p=0.12):
+    """The same command with some integer arguments spelled differently (explicit plus sign,
+    leading zeros, -0): the reply must carry the arguments as they were sent."""
+    toks = text.split(" ")
+    for i in range(1, len(toks)):
+        t = toks[i]
+        if rng.random() < p and t.lstrip("-").isdigit() and len(t) < 7:
+            v = int(t)
+            forms = ["%04d" % v if v >= 0 else "-%04d" % -v]
+            if v >= 0:
+                forms += ["+%d" % v, "+0%d" % v]
+            if v == 0:
+                forms += ["-0", "00"]
+            toks[i] = rng.choice(forms)
+    return " ".join(toks)
+
+
 def rand_cmd(rng, ntrx):
+    return respell(rng, _rand_cmd(rng, ntrx))
+
+
+def _rand_cmd(rng, ntrx):
     """A well-formed command (documented verb or not, any argument count)."""
     r = rng.random()
     f = rng.choice(FREQS + [rng.randint(1, 2000000)])
@@ -323,7 +344,16 @@ def traffic_session(ctx, sid, prof, length=None):
                 "CMD FAKE_CI %d %d" % (rng.choice([90, 0, -30, 1270, -1270]), rng.choice([0, 0, 5, 10])),
                 "CMD FAKE_CI %d" % rng.choice([1, -1, 10])]))
         else:
-            if rng.random() < 0.5:
+            r2 = rng.random()
+            if r2 < 0.2:
+                # a refused re-configuration in the middle of traffic: routing must stay as it was
+                k = rng.randint(1, 3)
+                ma = [rng.choice(FREQS) for _ in range(2 * k)]
+                s.cmd(t, rng.choice([
+                    "CMD SETFH %d %d %s" % (rng.choice([64, 100, 255, -1]), rng.randrange(64), " ".join(str(x) for x in ma)),
+                    "CMD SETFH %d %d %s" % (rng.randrange(64), rng.randrange(64), " ".join(str(x) for x in ma[:-1])),
+                    "CMD SETFH %d" % rng.randrange(64), "CMD RXTUNE", "CMD TXTUNE", "CMD RXTUNE 1 2"]))
+            elif r2 < 0.6:
                 k = rng.randint(1, 4)
                 ma = [rng.choice(FREQS) for _ in range(2 * k)]
                 s.cmd(t, "CMD SETFH %d %d %s" % (rng.randrange(64), rng.randrange(64), " ".join(str(x) for x in ma)))
